@@ -351,14 +351,21 @@ pub fn exec(ops: &[TOp]) -> ExecResult {
                     } else {
                         "rows-differ"
                     };
-                    findings.push((format!("C10 | template={} | A-vs-B | {class} | {ctx}", qname(q)), format!("step {i}: `{t}`: A {ra:?} vs B {rb:?}")));
-                    break;
-                }
-                if let Some(want) = m.answer(q) {
-                    if ra != want {
-                        findings.push((format!("C10 | template={} | both-differ-from-brute-force | {ctx}", qname(q)), format!("step {i}: `{t}`: got {ra:?}, brute force {want:?}")));
-                        break;
+                    // a query changes nothing: the run goes on after a wrong answer
+                    let sig = format!("C10 | template={} | A-vs-B | {class} | {ctx}", qname(q));
+                    if !findings.iter().any(|(s0, _)| *s0 == sig) {
+                        findings.push((sig, format!("step {i}: `{t}`: A {ra:?} vs B {rb:?}")));
                     }
+                } else if let Some(want) = m.answer(q) {
+                    if ra != want {
+                        let sig = format!("C10 | template={} | both-differ-from-brute-force | {ctx}", qname(q));
+                        if !findings.iter().any(|(s0, _)| *s0 == sig) {
+                            findings.push((sig, format!("step {i}: `{t}`: got {ra:?}, brute force {want:?}")));
+                        }
+                    }
+                }
+                if findings.len() >= 6 {
+                    break;
                 }
                 digest = digest.rotate_left(5) ^ fnv(ra.join("|").as_bytes());
             }
